@@ -97,6 +97,7 @@ def run_file_case(m, fn, hooks, env):
     hooks.should_inline = A.private_only
     outs = it.run_function(fn, env=env)
     need(not it.imprecise, '%s: %s' % (fn.fullname, it.imprecise[:2]))
+    need(not it.unknown_branches, '%s: test not determined: %s' % (fn.fullname, it.unknown_branches[:2]))
     return outs
 
 
